@@ -10,6 +10,11 @@ namespace FmpRpc.T
   | .absent | .begin | .new => true
   | _ => false
 
+/-- before the call frame can have gone through the hand-off -/
+@[simp, grind] def CPc.preSend : CPc → Bool
+  | .absent | .begin | .new | .add | .enc | .hand _ => true
+  | _ => false
+
 /-- between AddCall and RemoveCall -/
 @[simp, grind] def CPc.inTable : CPc → Bool
   | .enc | .hand _ | .sel1 _ | .sel2 | .cEnc | .cHand _ | .cPoll _ | .cRec | .fin _ | .rm _ => true
@@ -48,8 +53,12 @@ structure COk (nextSeq : Nat) (cl : Caller) : Prop where
   post : cl.pc.pre = false → cl.pc.isRet = false → cl.seq ≠ -1
   tab : cl.pc.inTable = true → cl.seq ≠ -1
   rec0 : cl.pc.isRet = false → cl.pc.isRm = false → cl.records = 0
-  rec1 : cl.pc.isRm = true → cl.records = 1
-  recr : cl.pc.isRet = true → (cl.seq = -1 ∧ cl.records = 0) ∨ (cl.seq ≠ -1 ∧ cl.records = 1)
+  rec1 : cl.pc.isRm = true → cl.records = if cl.cfail then 0 else 1
+  recr : cl.pc.isRet = true →
+    (cl.seq = -1 ∧ cl.records = 0) ∨ (cl.seq ≠ -1 ∧ cl.records = if cl.cfail then 0 else 1)
+  snt : cl.pc.preSend = true → cl.sent = false
+  cfl : cl.cfail = true → cl.sent = false ∧ cl.records = 0 ∧ cl.pc.out? = some (.err .toobig) ∧
+    (cl.pc.isRm = true ∨ cl.pc.isRet = true)
   can0 : cl.pc.inCancel = false → cl.pc.leaving = false → cl.cancels = 0 ∧ cl.crecords = 0
   can1 : cl.pc.inCancel = true → cl.cancels = 1 ∧ cl.crecords = 0
   can2 : cl.pc.leaving = true → cl.cancels ≤ 1 ∧ cl.crecords = cl.cancels
@@ -71,7 +80,7 @@ theorem CInv_init : CInv init := by
   constructor <;> simp
 
 theorem COk_mono {n m : Nat} {cl : Caller} (h : COk n cl) (hnm : n ≤ m) : COk m cl := by
-  obtain ⟨pre, abs, rng, post, tab, rec0, rec1, recr, can0, can1, can2, bseq, sseq, slot, okb⟩ := h
+  obtain ⟨pre, abs, rng, post, tab, rec0, rec1, recr, snt, cfl, can0, can1, can2, bseq, sseq, slot, okb⟩ := h
   constructor <;> first | assumption | omega
 
 set_option maxHeartbeats 1000000 in
@@ -87,7 +96,7 @@ theorem CInv_loc_step (s s' : St) (a : Act) (h : CInv s) (hs : step s a = some s
   all_goals (split; rotate_left; first | exact h0 | exact COk_mono h0 (by omega))
   all_goals (rename_i heq; subst heq)
   all_goals (clear loc inj pend2 pend1)
-  all_goals (obtain ⟨pre, abs, rng, post, tab, rec0, rec1, recr, can0, can1, can2, bseq, sseq, slot, okb⟩ := h0)
+  all_goals (obtain ⟨pre, abs, rng, post, tab, rec0, rec1, recr, snt, cfl, can0, can1, can2, bseq, sseq, slot, okb⟩ := h0)
   all_goals (constructor <;> (try simp) <;> (first | done | assumption | omega | grind))
 
 
